@@ -11,8 +11,9 @@ DiffRounded(a, b, lg, sm, inc, mode, isSince) ==
   LET m == IF isSince THEN NegateMode(mode) ELSE mode
   IN IF CmpDT(a, b) = 0 THEN Ok(ZeroDur)
      ELSE LET diff == DiffDTRec(a, b, lg)
-              rr == IF sm = "nanosecond" /\ inc = 1 THEN [kind |-> "ok", dur |-> diff] ELSE RoundRelative(diff, EpochNsOf(b), a, lg, inc, sm, m)
+              rr == IF sm = "nanosecond" /\ inc = 1 THEN [kind |-> "ok", dur |-> diff, outside |-> FALSE] ELSE RoundRelative(diff, EpochNsOf(b), a, lg, inc, sm, m)
           IN IF rr.kind # "ok" THEN ErrRange
+             ELSE IF rr.outside THEN [kind |-> "any"]
              ELSE LET o == DurNew(ToDur(rr.dur, lg)) IN IF o.kind = "ok" /\ isSince THEN Ok(NegDur(o.val)) ELSE o
 Expected(e) ==
   CASE e.op = "Duration.round" -> RoundRel(e.args.rel, e.args.recv, St(e).largest, St(e).smallest, St(e).inc, St(e).mode)
@@ -30,6 +31,7 @@ Matches(e) ==
   LET x == Expected(e)
   IN IF e.op = "Duration.total" /\ x.kind = "ok"
      THEN e.out.kind = "ok" /\ F64Approximates(e.out.val.m, e.out.val.e, x.val.n, x.val.d)
+     ELSE IF x.kind = "any" THEN e.out.kind \in OkKinds
      ELSE x = e.out
 Eom(d) == IF d.d > 28 THEN "/eom" ELSE "/mid"
 ClsOf(e) ==
